@@ -138,16 +138,16 @@ theorem trc_startNumbers (legacy : Bool) (level d : Nat) :
   · exact trc_bind (trc_lift_any (ransBitStart_suf legacy)) (fun _ _ => trc_pure trivial)
   · exact trc_bind (trc_lift_any (foldedStart_suf _ (ransBitStart_suf legacy))) (fun _ _ => trc_pure trivial)
 
-theorem trc_decodePoints (level dim maxPoints d : Nat) :
-    TrC bs X d (decodePoints level dim maxPoints) (fun _ => d) (fun _ => True) := by
-  unfold decodePoints
+theorem trc_decodePointsL (legacy : Bool) (level dim maxPoints d : Nat) :
+    TrC bs X d (decodePointsL legacy level dim maxPoints) (fun _ => d) (fun _ => True) := by
+  unfold decodePointsL
   refine trc_bind trc_rdU32 (fun bl _ => ?_)
   refine trc_bind trc_require (fun _ _ => ?_)
   refine trc_bind trc_rdU32 (fun np _ => ?_)
   apply trc_ite <;> intro _
   · exact trc_pure trivial
   refine trc_bind trc_require (fun _ _ => ?_)
-  refine trc_bind (trc_startNumbers false level d) (fun num _ => ?_)
+  refine trc_bind (trc_startNumbers legacy level d) (fun num _ => ?_)
   refine trc_bind (trc_startDirect d) (fun rem _ => ?_)
   refine trc_bind (trc_startDirect d) (fun axis _ => ?_)
   refine trc_bind (trc_startDirect d) (fun half _ => ?_)
@@ -155,6 +155,10 @@ theorem trc_decodePoints (level dim maxPoints d : Nat) :
   split
   · exact trc_fail
   · exact trc_pure trivial
+
+theorem trc_decodePoints (level dim maxPoints d : Nat) :
+    TrC bs X d (decodePoints level dim maxPoints) (fun _ => d) (fun _ => True) :=
+  trc_decodePointsL false level dim maxPoints d
 
 /-! ### the attribute layer -/
 
@@ -332,13 +336,210 @@ theorem trc_decodePointAttributesKd (hb : IsBytes bs) (opts : DecOpts) (np d : N
     (fun descs h => trc_decodeKdAttributes opts np d hnp descs h.1 h.2) descss hds.2) (fun attss _ => ?_)
   exact trc_pure trivial
 
+/-! ### bitstreams older than 2.3 (DracoModel/KdTreeLegacy.lean) -/
+
+theorem classifyLegacy_bound : ∀ (descs : List AttDesc) (dim : Nat) (r : List KdAtt × Nat),
+    (∀ x ∈ descs, DescB x) → classifyLegacy descs dim = some r →
+    r.2 ≤ dim + 255 * descs.length ∧ ∀ ka ∈ r.1, KaB ka := by
+  intro descs
+  induction descs with
+  | nil =>
+    intro dim r _ h
+    simp only [classifyLegacy, Option.some.injEq] at h
+    rw [← h]; simp
+  | cons x xs ih =>
+    intro dim r hd h
+    have hx := hd x (by simp)
+    simp only [classifyLegacy] at h
+    split at h
+    · cases h
+    · cases hr : classifyLegacy xs (dim + x.numComponents) with
+      | none => rw [hr] at h; cases h
+      | some r2 =>
+        rw [hr] at h
+        simp only [Option.some.injEq] at h
+        obtain ⟨i1, i2⟩ := ih (dim + x.numComponents) r2 (fun y hy => hd y (by simp [hy])) hr
+        rw [← h]
+        refine ⟨by have := hx.1; simp only [List.length_cons]; omega, ?_⟩
+        intro ka hka
+        simp only [List.mem_cons] at hka
+        rcases hka with rfl | hka
+        · exact ⟨hx.1, dataTypeLength_le _⟩
+        · exact i2 ka hka
+
+/-- the members of the tree decoder for a total dimension of at most `1275 · length`: the
+    exceptional class -/
+theorem trc_allocTreeDecoder (dim d : Nat) (hdim : dim ≤ 1275 * bs.length) :
+    TrC bs (kdX (1275 * bs.length)) d (allocTreeDecoder dim) (fun _ => d) (fun _ => True) := by
+  have hstack : kdStackBytes dim ≤ kdStackBytes (1275 * bs.length) := kdStackBytes_mono hdim
+  have hsmall : 4 * dim ≤ kdStackBytes dim := by
+    unfold kdStackBytes
+    have : 1 * (4 * dim) ≤ (32 * dim + 1) * (24 + 4 * dim) := Nat.mul_le_mul (by omega) (by omega)
+    omega
+  unfold allocTreeDecoder
+  refine trc_bind (trc_allocX ⟨Or.inl rfl, by simp only; omega⟩) (fun _ _ => ?_)
+  refine trc_bind (trc_allocX ⟨Or.inr (Or.inl rfl), by simp only; omega⟩) (fun _ _ => ?_)
+  refine trc_bind (trc_allocX ⟨Or.inr (Or.inr (Or.inl rfl)), hstack⟩) (fun _ _ => ?_)
+  exact trc_allocX ⟨Or.inr (Or.inr (Or.inr rfl)), hstack⟩
+
+/-- the embedded three-dimensional tree decoder of the float method: constant sizes, within the
+    linear bound -/
+theorem trc_allocTreeDecoder3 (d : Nat) :
+    TrC bs X d (allocTreeDecoder 3) (fun _ => d) (fun _ => True) := by
+  have hA : allocA = 4259840 := by decide
+  unfold allocTreeDecoder
+  refine trc_bind (trc_alloc (allocBound_of_le (by rw [hA]; omega))) (fun _ _ => ?_)
+  refine trc_bind (trc_alloc (allocBound_of_le (by rw [hA]; omega))) (fun _ _ => ?_)
+  refine trc_bind (trc_alloc (allocBound_of_le (by rw [hA]; omega))) (fun _ _ => ?_)
+  exact trc_alloc (allocBound_of_le (by rw [hA]; omega))
+
+theorem trc_allocOutputIterator (d : Nat) (kas : List KdAtt) (h : ∀ ka ∈ kas, KaB ka) :
+    TrC bs X d (allocOutputIterator kas) (fun _ => d) (fun _ => True) := by
+  have hA : allocA = 4259840 := by decide
+  unfold allocOutputIterator
+  exact trc_alloc (allocBound_of_le (by
+    have := foldl_max_le kas h 0 (by omega)
+    rw [hA]; omega))
+
+theorem reset_bound (np d : Nat) (hnp : np ≤ d) (ka : KdAtt) (h : KaB ka) :
+    np * (ka.dataSize * ka.desc.numComponents) ≤ 2040 * d := by
+  have h1 : ka.dataSize * ka.desc.numComponents ≤ 8 * 255 := Nat.mul_le_mul h.2 (by have := h.1; omega)
+  calc np * (ka.dataSize * ka.desc.numComponents) ≤ d * 2040 := Nat.mul_le_mul hnp h1
+    _ = 2040 * d := Nat.mul_comm _ _
+
+theorem trc_resetAll (np d : Nat) (hnp : np ≤ d) : ∀ (kas : List KdAtt), (∀ ka ∈ kas, KaB ka) →
+    TrC bs X d (resetAll np kas) (fun _ => d) (fun _ => True) := by
+  have hK : allocK = 2048 := rfl
+  intro kas
+  induction kas with
+  | nil => intro _; simp only [resetAll]; exact trc_pure trivial
+  | cons ka kas ih =>
+    intro h
+    simp only [resetAll]
+    refine trc_bind (trc_alloc (allocBound_of_decl (c := 2040) (by rw [hK]; omega)
+      (reset_bound np d hnp ka (h ka (by simp))))) (fun _ _ => ?_)
+    exact ih (fun x hx => h x (by simp [hx]))
+
+theorem trc_decodeLegacyInt (legacy : Bool) (numPoints d : Nat) (hnp : numPoints ≤ d) (kas : List KdAtt)
+    (dim : Nat) (hk : ∀ ka ∈ kas, KaB ka) (hdim : dim ≤ 1275 * bs.length) :
+    TrC bs (kdX (1275 * bs.length)) d (decodeLegacyInt legacy numPoints kas dim) (fun _ => d) (fun _ => True) := by
+  unfold decodeLegacyInt
+  refine trc_bind trc_rdU8_any (fun level _ => ?_)
+  refine trc_bind trc_require (fun _ _ => ?_)
+  refine trc_bind trc_rdU32 (fun np _ => ?_)
+  refine trc_bind trc_require (fun _ hreq => ?_)
+  have hreq : np = numPoints := by simpa using hreq
+  subst hreq
+  refine trc_bind (trc_resetAll np d hnp kas hk) (fun _ _ => ?_)
+  refine trc_bind (trc_allocOutputIterator d kas hk) (fun _ _ => ?_)
+  refine trc_bind (trc_allocTreeDecoder dim d hdim) (fun _ _ => ?_)
+  refine trc_bind (trc_decodePointsL legacy level dim np d) (fun dp _ => ?_)
+  refine trc_bind trc_require (fun _ _ => ?_)
+  exact trc_pure trivial
+
+theorem trc_floatTreeInternal (legacy : Bool) (headerPoints d : Nat) (hnp : headerPoints ≤ d) :
+    TrC bs X d (floatTreeInternal legacy headerPoints) (fun _ => d) (fun _ => True) := by
+  have hK : allocK = 2048 := rfl
+  unfold floatTreeInternal
+  refine trc_bind trc_rdU32 (fun _ _ => ?_)
+  refine trc_bind trc_require (fun _ _ => ?_)
+  refine trc_bind trc_rdU32 (fun _ _ => ?_)
+  refine trc_bind trc_rdU32 (fun np _ => ?_)
+  refine trc_bind trc_require (fun _ hreq => ?_)
+  have hreq : np = headerPoints := by simpa using hreq
+  subst hreq
+  refine trc_bind trc_rdU32 (fun level _ => ?_)
+  refine trc_bind trc_require (fun _ _ => ?_)
+  refine trc_bind (F := fun _ => True) (D1 := fun _ => d) ?_ (fun pts _ => ?_)
+  · unfold floatTreePoints
+    apply trc_ite <;> intro _
+    · exact trc_pure trivial
+    refine trc_bind (trc_alloc (allocBound_of_decl (c := 12) (by rw [hK]; omega)
+      (Nat.mul_le_mul_left 12 hnp))) (fun _ _ => ?_)
+    refine trc_bind (trc_allocTreeDecoder3 d) (fun _ _ => ?_)
+    refine trc_bind (trc_decodePointsL legacy level 3 np d) (fun dp _ => ?_)
+    exact trc_pure trivial
+  · refine trc_bind trc_require (fun _ _ => ?_)
+    exact trc_pure trivial
+
+theorem trc_decodeLegacyFloat (legacy : Bool) (numPoints d : Nat) (hnp : numPoints ≤ d) (ka : KdAtt)
+    (hk : KaB ka) :
+    TrC bs X d (decodeLegacyFloat legacy numPoints ka) (fun _ => d) (fun _ => True) := by
+  have hK : allocK = 2048 := rfl
+  unfold decodeLegacyFloat
+  refine trc_bind trc_rdU8_any (fun _ _ => ?_)
+  refine trc_bind trc_rdU32 (fun np _ => ?_)
+  refine trc_bind trc_require (fun _ hreq => ?_)
+  have hreq : np = numPoints := by simpa using hreq
+  subst hreq
+  refine trc_bind (trc_alloc (allocBound_of_decl (c := 2040) (by rw [hK]; omega)
+    (reset_bound np d hnp ka hk))) (fun _ _ => ?_)
+  refine trc_bind (trc_allocOutputIterator d [ka] (fun x hx => by
+    simp only [List.mem_singleton] at hx; rw [hx]; exact hk)) (fun _ _ => ?_)
+  refine trc_bind (F := fun _ => True) (D1 := fun _ => d) ?_ (fun _ _ => ?_)
+  · unfold floatTreeHeader
+    refine trc_bind trc_rdU32 (fun v _ => ?_)
+    apply trc_ite <;> intro _
+    · refine trc_bind trc_rdU8_any (fun _ _ => ?_)
+      exact trc_weaken trc_require (fun _ _ => Nat.le_refl _) (fun _ _ => trivial)
+    apply trc_ite <;> intro _
+    · exact trc_pure trivial
+    · exact trc_fail
+  refine trc_bind (trc_floatTreeInternal legacy np d hnp) (fun r _ => ?_)
+  exact trc_pure trivial
+
+theorem trc_decodeKdAttributesLegacy (np d : Nat) (hnp : np ≤ d) (descs : List AttDesc)
+    (hlen : descs.length ≤ 5 * bs.length) (hd : ∀ x ∈ descs, DescB x) :
+    TrC bs (kdX (1275 * bs.length)) d (decodeKdAttributesLegacy np descs) (fun _ => d) (fun _ => True) := by
+  have hK : allocK = 2048 := rfl
+  unfold decodeKdAttributesLegacy
+  refine trc_bind (trc_alloc (allocBound_of_le (by rw [hK]; omega))) (fun _ _ => ?_)
+  cases hcl : classifyLegacy descs 0 with
+  | none => exact trc_fail
+  | some cl =>
+    obtain ⟨hdim0, hk⟩ := classifyLegacy_bound descs 0 cl hd hcl
+    have hdim : cl.2 ≤ 1275 * bs.length := by omega
+    simp only
+    refine trc_bind trc_version (fun ver _ => ?_)
+    refine trc_bind trc_rdU8_any (fun method _ => ?_)
+    unfold decodeLegacyMethod
+    apply trc_ite <;> intro _
+    · rcases hk1 : cl.1 with _ | ⟨ka, _ | ⟨kb, rest⟩⟩
+      · exact trc_fail
+      · simp only
+        apply trc_ite <;> intro _
+        · refine trc_bind (trc_decodeLegacyFloat _ np d hnp ka (hk ka (by rw [hk1]; simp))) (fun a _ => ?_)
+          exact trc_pure trivial
+        · exact trc_fail
+      · exact trc_fail
+    apply trc_ite <;> intro _
+    · exact trc_decodeLegacyInt _ np d hnp cl.1 cl.2 hk hdim
+    · exact trc_fail
+
+theorem trc_decodeKdGeometryLegacy (hb : IsBytes bs) :
+    TrC bs (kdX (1275 * bs.length)) 0 decodeKdGeometryLegacy (fun _ => 0) (fun _ => True) := by
+  unfold decodeKdGeometryLegacy
+  refine trc_bind trc_rdI32 (fun np _ => ?_)
+  refine trc_bind trc_require (fun _ _ => ?_)
+  simp only []
+  refine trc_bind trc_declare (fun _ _ => ?_)
+  refine trc_bind (F := fun _ => True) (D1 := fun _ => 0 + np.toNat) ?_ (fun atts _ => ?_)
+  · unfold decodePointAttributesKdLegacy
+    refine trc_bind trc_rdU8_any (fun nd _ => ?_)
+    refine trc_bind (trc_replicateM' _ _ _ (trc_decodeAttDescs hb _) nd) (fun descss hds => ?_)
+    refine trc_bind (trc_mapM' (decodeKdAttributesLegacy np.toNat)
+      (fun descs => descs.length ≤ 5 * bs.length ∧ ∀ x ∈ descs, DescB x) (fun _ => True) _
+      (fun descs h => trc_decodeKdAttributesLegacy np.toNat _ (by omega) descs h.1 h.2) descss hds.2) (fun attss _ => ?_)
+    exact trc_pure trivial
+  · exact trc_weaken (trc_pure (F := fun _ => True) trivial) (fun _ _ => Nat.zero_le _) (fun _ h => h)
+
 /-- the kd-tree body decoder keeps the allocation invariant with the exceptional class `kdX` -/
 theorem trc_decodeKdGeometry (hb : IsBytes bs) (opts : DecOpts) :
     TrC bs (kdX (1275 * bs.length)) 0 (decodeKdGeometry opts) (fun _ => 0) (fun _ => True) := by
   unfold decodeKdGeometry
   refine trc_bind trc_version (fun ver _ => ?_)
   apply trc_ite <;> intro _
-  · exact trc_failWith
+  · exact trc_decodeKdGeometryLegacy hb
   refine trc_bind trc_rdI32 (fun np _ => ?_)
   refine trc_bind trc_require (fun _ _ => ?_)
   simp only []
